@@ -552,6 +552,7 @@ def main():
     fails = []
     diverges = []
     model_spec_fail = []
+    retried_ok = []
     invalid_cases = 0
     for c, t, r in zip(lines, tags, res):
         hist[t] = hist.get(t, 0) + 1
@@ -560,7 +561,14 @@ def main():
         distinct.add(r["impl"])
         if getattr(gen, "nontrivial", None) is None or gen.nontrivial(c, r["impl"]):
             nontrivial.add(c)
-        if r["ci"] != "1":
+        if r["ci"] != "1" and c.split(" ", 1)[0] in MODEL_FREE and r["impl"] not in (CRASH, HANG):
+            # real sockets and real timing: a failure only counts when the case fails again, alone, twice
+            again = [run_both(prop, [c])[0] for _ in range(2)]
+            if all(a["ci"] != "1" for a in again):
+                fails.append((c, again[-1]))
+            else:
+                retried_ok.append(c)
+        elif r["ci"] != "1":
             fails.append((c, r))
         elif r["diverge"]:
             diverges.append((c, r))
@@ -662,6 +670,7 @@ def main():
             "traces_validated_against_impl": len(lines),
             "divergences": len(diverges),
             "invalid_cases_skipped": invalid_cases,
+            "loopback_failures_not_reproduced_on_retry": len(retried_ok),
             "spec_failures_on_impl": len(fails),
             "samples": samples[:6],
             "repo_fingerprint": repo_fingerprint(),
